@@ -228,9 +228,15 @@ func (w *World) partialProbe(h *Handle, rng *rand.Rand) []IterObs {
 			others = append(others, id)
 		}
 	}
-	nsub := 1 << uint(len(others))
+	nsub := 1
+	if len(others) <= 30 {
+		nsub = 1 << uint(len(others))
+	}
 	var masks []int
-	if len(others) <= 5 {
+	if len(others) > 30 {
+		// too many slabs for a bit mask: twelve random subsets (chosen slab by slab below)
+		masks = make([]int, 12)
+	} else if len(others) <= 5 {
 		for m := 0; m < nsub; m++ {
 			masks = append(masks, m)
 		}
